@@ -46,6 +46,11 @@ func vTimerReset(limit int) {
 	vTimerLog, vTimerLimit = nil, limit
 	vTimerMu.Unlock()
 }
+func vTimerPeek() []time.Duration {
+	vTimerMu.Lock()
+	defer vTimerMu.Unlock()
+	return append([]time.Duration(nil), vTimerLog...)
+}
 func vTimerTake() []time.Duration {
 	vTimerMu.Lock()
 	defer vTimerMu.Unlock()
